@@ -48,6 +48,9 @@ def main():
     sys.path.insert(0, VERIF)
     import warnings
     warnings.filterwarnings("ignore", category=SyntaxWarning)
+    # warnings emitted by the code under test are observed through catch_warnings(record=True) where a clause needs
+    # them; they are never printed (the filters, the registries and NumPy's error state stay real)
+    warnings.showwarning = lambda *a, **k: None
 
     ap = argparse.ArgumentParser()
     ap.add_argument("what")
